@@ -132,7 +132,9 @@ where
 
         if index < self.data.len() {
             let value = self.data[index].take();
-            self.size -= 1;
+            if value.is_some() {
+                self.size -= 1;
+            }
 
             value
         } else {
